@@ -57,6 +57,7 @@ class Actor:
         self.items = {}  # id -> library item object (identity matters for remove-by-object)
         self.last_sha = None
         self.assigned_list = None  # the list object last assigned to .tracks / .platforms
+        self.links = []  # model of a 3D block's marker links
         self.ctor_list = None  # the list object handed to the constructor (if any)
         self.ctor_ids = None
 
@@ -228,6 +229,8 @@ class World2:
         if a.cls == "emg":
             return [(t["ch"], item_id_from_label(t["label"])) for t in C["tracks"]], None
         if a.cls in ("data3d", "ft"):
+            if a.cls == "data3d" and C.get("links", []) != a.links:
+                return None, f"marker links {C.get('links')} where the model has {a.links}"
             return [(None, item_id_from_label(t["label"])) for t in C["tracks"]], None
         if a.cls == "fpcal":
             return [(p["ch"], item_id_from_label(p["label"])) for p in C["plats"]], None
@@ -423,6 +426,7 @@ class World2:
                 return
             a.obj = o
             a.model = list(src.model)
+            a.links = [list(x) for x in src.links]
             a.items = {}
             self.actors[k] = a
         self.stats["decoded_actors"] += len(targets)
@@ -519,6 +523,14 @@ class World2:
             if L == a.n:
                 return self.skip()
             it = make_item(a.cls, a.n, op["id"], L)
+        elif kindname.startswith("reassign"):
+            # a track built with the right length whose public `data` is then replaced by an
+            # array of another length
+            if a.cls not in ("data3d", "emg"):
+                return self.skip()
+            it = make_item(a.cls, a.n, op["id"])
+            L = a.n + 3
+            it.data = np.zeros((L, 3), dtype=np.float32) if a.cls == "data3d" else np.zeros(L, dtype=np.float32)
         elif kindname.startswith("shape"):
             # same number of elements, other number of frames
             if a.cls == "emg" and a.n >= 2:
@@ -665,7 +677,7 @@ class World2:
                 if L == a.n:
                     return self.skip()
                 items[k] = make_item(a.cls, a.n, ids[k], L)
-            elif bad_kind.startswith("shape"):
+            elif bad_kind.startswith(("shape", "reassign")):
                 return self.skip()
             else:
                 items[k] = wrong_kind(bad_kind[5:])
@@ -832,6 +844,29 @@ class World2:
         chans = [c for c, _ in enc] if enc else []
         if prob is None and len(set(chans)) != len(chans):
             self.v("C15", "I-chan", "decoded-block-has-duplicate-channels", {"channels": chans})
+
+    def op_link(self, op):
+        """Marker links are a public attribute of a 3D block: a user appends to it (creating it
+        if the block has none).  No other instance may see the link."""
+        a = self.actor(op["a"])
+        if a is None or a.obj is None or a.cls != "data3d":
+            return self.skip()
+        pair = (op.get("k", 0) % 5, (op.get("k", 0) + 1) % 5)
+
+        def do():
+            o = a.obj
+            if hasattr(o, "links"):
+                if isinstance(o.links, list):
+                    o.links.append(pair)
+                else:  # a structured array on decoded blocks
+                    o.links = np.append(o.links, np.array([pair], dtype=o.links.dtype))
+            else:
+                o.links = [pair]
+        kind, val = self.call(do)
+        self.note("link", kind)
+        if kind == "ok":
+            a.links.append(list(pair))
+            self.stats["links_appended"] += 1
 
     def op_edit(self, op):
         """Edit an item's samples in place: must not show through another instance."""
